@@ -11,6 +11,7 @@ side condition is that the `uint64` counter does not wrap during the calls consi
 -/
 import Vegeta.Model.RoundRobin
 import Vegeta.Extracted.Facts
+import Vegeta.Props.C10
 namespace Vegeta.Props.C13
 open Vegeta.Go Vegeta.Model.RoundRobin
 
@@ -378,6 +379,60 @@ theorem report_split_invariant {α β} (metric : List α → β)
   obtain ⟨o1, s1, o2, s2, h1, h2, p⟩ :=
     encode_split_multiset inputs₁ inputs₂ fuel₁ fuel₂ hsame hn₁ hn₂ hf₁ hf₂ hw₁ hw₂
   rw [h1, h2]; exact hinv _ _ p
+
+/-! ### the report command: composition with C10 (no abstract metric left) -/
+
+section Report
+open Vegeta.Model.Metrics Vegeta.Spec.Metrics Vegeta.Props.C10
+
+/-- the closed metrics report computed by the `report` command's loop from the records it was fed:
+`Metrics.Add` for each record in arrival order, then `Close` (model of lib/metrics.go, C10) -/
+def closedReport (fed : List Result) : Report := report (close (addAll Metrics.init fed))
+
+/-- **"Consequently the report … command[s] produce the same exact metrics … for a result set no
+matter how it is split across files."**  For any two splits of the same result multiset into
+`n ≥ 1` inputs each (of any lengths; in particular any split against the unsplit file `[all]`),
+in C10's domain (timestamps ≥ 1970, latencies ≥ 0, ends and totals inside their Go types):
+draining the round-robin decoder over either split and folding `Metrics.Add`/`Close` over the
+records in the order they come out gives the same closed report — every field equal, the error
+texts the same set (equal up to permutation: their order is the order of first arrival) — and
+this report is the reference report `ref` of the union of the files. -/
+theorem report_metrics_split_invariant (inputs₁ inputs₂ : List (List Result)) (fuel₁ fuel₂ : Nat)
+    (hsame : inputs₁.flatten.Perm inputs₂.flatten) (hd : Domain inputs₁.flatten)
+    (hn₁ : 0 < inputs₁.length) (hn₂ : 0 < inputs₂.length)
+    (hf₁ : inputs₁.flatten.length < fuel₁) (hf₂ : inputs₂.flatten.length < fuel₂)
+    (hw₁ : inputs₁.length * fuel₁ < two64) (hw₂ : inputs₂.length * fuel₂ < two64) :
+    ∃ out₁ s₁ out₂ s₂,
+      drain fuel₁ (RR.init (ofInputs inputs₁)) = (out₁, s₁, some eEOF) ∧
+      drain fuel₂ (RR.init (ofInputs inputs₂)) = (out₂, s₂, some eEOF) ∧
+      withoutErrors (closedReport (out₁.map (·.2))) = withoutErrors (closedReport (out₂.map (·.2))) ∧
+      (closedReport (out₁.map (·.2))).errors.Perm (closedReport (out₂.map (·.2))).errors ∧
+      withoutErrors (closedReport (out₁.map (·.2))) = withoutErrors (ref inputs₁.flatten) ∧
+      (closedReport (out₁.map (·.2))).errors.Perm (ref inputs₁.flatten).errors := by
+  obtain ⟨o1, s1, h1, p1⟩ := rr_output_perm_concat inputs₁ 0 fuel₁ hn₁ hf₁ (by omega)
+  obtain ⟨o2, s2, h2, p2⟩ := rr_output_perm_concat inputs₂ 0 fuel₂ hn₂ hf₂ (by omega)
+  have hd1 : Domain (o1.map (·.2)) := aux_domain_perm p1.symm hd
+  have p12 : (o1.map (·.2)).Perm (o2.map (·.2)) := (p1.trans hsame).trans p2.symm
+  obtain ⟨a, b⟩ := metrics_order_independent _ _ hd1 p12
+  have hr1 : closedReport (o1.map (·.2)) = ref (o1.map (·.2)) := metrics_eq_ref _ hd1
+  obtain ⟨c, d⟩ := ref_perm _ _ p1
+  exact ⟨o1, s1, o2, s2, h1, h2, a, b, by rw [hr1]; exact c, by rw [hr1]; exact d⟩
+
+/-- non-vacuity: a concrete result set (C10's sample), its unsplit file and a split into three files
+of unequal lengths (one of them empty) satisfy the hypotheses -/
+example : ∃ out₁ s₁ out₂ s₂,
+    drain 10 (RR.init (ofInputs [sample])) = (out₁, s₁, some eEOF) ∧
+    drain 10 (RR.init (ofInputs [sample.drop 2, [], sample.take 2])) = (out₂, s₂, some eEOF) ∧
+    withoutErrors (closedReport (out₁.map (·.2))) = withoutErrors (closedReport (out₂.map (·.2))) := by
+  have hp : ([sample] : List (List Result)).flatten.Perm [sample.drop 2, [], sample.take 2].flatten := by decide
+  have hdom : Domain ([sample] : List (List Result)).flatten :=
+    { ts_nonneg := by decide, lat_nonneg := by decide, end_fits := by decide, lat_sum := by decide,
+      in_sum := by decide, out_sum := by decide }
+  obtain ⟨o1, s1, o2, s2, h1, h2, h3, _⟩ := report_metrics_split_invariant _ _ 10 10 hp hdom
+    (by decide) (by decide) (by decide) (by decide) (by decide) (by decide)
+  exact ⟨o1, s1, o2, s2, h1, h2, h3⟩
+
+end Report
 
 /-! ### source fact (regenerated from /repo by every check run) -/
 
